@@ -422,6 +422,18 @@ def _u1_regex(run):
                    "constructors vs SMT-LIB literal definitions; exact emptiness vs bounded search")
 
 
+def _gen_terms(run):
+    """TLC enumerates construction programs of depth <= 2 (MC_Terms); quick: a seeded residue class."""
+    path = os.path.join(run.workdir, "terms_scen.ndjson")
+    stride = 40 if run.tier == "thorough" else 503
+    run.generate("MC_Terms", "MC_Terms.cfg", path, timeout=1800,
+                 env={"VH_STRIDE": str(stride), "VH_OFFSET": str(run.seed % stride)},
+                 note="construction programs of depth <= 2 over 9 atoms (1 026 312 in all), every %d-th" % stride)
+    run.rule += ("; plus construction programs enumerated by TLC from MC_Terms (depth <= 2 over 9 atoms, residue class "
+                 "%d mod %d of 1 026 312)" % (run.seed % stride, stride))
+    return ["--terms", path]
+
+
 def _explored(r):
     return r.get("op") in ("dgraph", "automaton")
 
@@ -436,7 +448,7 @@ def c01(run):
                 "whose AST has depth >= 1")
     run.assumptions = list(REGEX_ASSUME)
     _u1_regex(run)
-    out, info = _drive(run, "c01")
+    out, info = _drive(run, "c01", extra=_gen_terms(run))
     need = {"star": lambda r: r.get("rootop") == "star", "mk_loop": lambda r: r.get("rootop") == "mk_loop",
             "complement": lambda r: r.get("rootop") == "complement", "inter": lambda r: r.get("rootop") == "inter",
             "explored": _explored, "random": lambda r: r.get("fam") == "random"}
@@ -458,7 +470,7 @@ def c02(run):
                 "non-trivial = distinct record whose AST has depth >= 1")
     run.assumptions = list(REGEX_ASSUME)
     _u1_regex(run)
-    out, info = _drive(run, "c02")
+    out, info = _drive(run, "c02", extra=_gen_terms(run))
     nt = lambda r: r.get("ast", {}).get("k") not in ("none", "eps", "all", "allchar", "rng", "chr", "str")
     need = {"compile": lambda r: r.get("via") == "compile", "try_compile": lambda r: r.get("via") == "try_compile",
             "explored": _explored, "fullscan": lambda r: r.get("fullscan") is True}
@@ -477,7 +489,7 @@ def c03(run):
                 "left quotient for all continuation strings; non-trivial = distinct record with >= 2 classes")
     run.assumptions = list(REGEX_ASSUME)
     _u1_regex(run)
-    out, info = _drive(run, "c03")
+    out, info = _drive(run, "c03", extra=_gen_terms(run))
     nt = lambda r: r.get("op") == "dgraph3" and len(r["cls"][0]["ranges"]) >= 1
     def setd(kind):
         def f(r):
@@ -515,7 +527,7 @@ def c05(run):
                 "witness against the AST; non-trivial = distinct record of depth >= 1")
     run.assumptions = list(REGEX_ASSUME)
     _u1_regex(run)
-    out, info = _drive(run, "c05")
+    out, info = _drive(run, "c05", extra=_gen_terms(run))
     need = {"empty_not_syntactic": lambda r: r.get("op") == "empty" and r["empty"] and not r["syn_empty"],
             "nonempty_with_witness": lambda r: r.get("op") == "empty" and r["has_w"] and len(r["w"]) >= 2,
             "exact": lambda r: r.get("exact") is True}
@@ -532,7 +544,7 @@ def c18(run):
                 "quotient (reachability closure in the residual automaton); non-trivial = distinct record of depth >= 1")
     run.assumptions = list(REGEX_ASSUME)
     _u1_regex(run)
-    out, info = _drive(run, "c18")
+    out, info = _drive(run, "c18", extra=_gen_terms(run))
     need = {"inter_root": lambda r: r.get("rootop") in ("inter", "inter_list"),
             "concat_root": lambda r: r.get("rootop") in ("concat", "concat_list"),
             "some_true": lambda r: r.get("op") == "start" and any(r["res"]),
@@ -551,7 +563,7 @@ def c19(run):
                 "bounds 0, L-1, L, L+1, usize::MAX, compile; non-trivial = distinct record with >= 3 derivatives")
     run.assumptions = ["region argument as in C01", "terms with more than 1500 derivatives: counts and bounds only, "
                        "closedness not examined; iteration cap 200000 = 'does not terminate'"]
-    out, info = _drive(run, "c19")
+    out, info = _drive(run, "c19", extra=_gen_terms(run))
     need = {"many": lambda r: r.get("len", 0) >= 40, "counters": lambda r: r.get("fam") == "counters",
             "closure": lambda r: r.get("op") == "closure"}
     run.validate("c19_closure", os.path.join(out, "c19_closure.ndjson"), "Trace_Regex", "Trace_Regex.cfg",
